@@ -22,8 +22,14 @@ GATE_N = 5
 _GATED = set()
 
 
-def make_db_hook(cfg: Cfg):
-    pack = dw.make_pack(cfg.pack)
+def make_db_hook(cfg):
+    pack = cfg.make_pack()
+    if cfg.to_json().get("domain") == "G":
+        from mc import domain_g as dg
+
+        brute_empty, gate_rule = dg.brute_empty, dg.gate_rule
+    else:
+        brute_empty, gate_rule = dw.brute_empty, dw.gate_rule
 
     def db_hook(db):
         from comb_spec_searcher.rule_db.base import RuleDBBase
@@ -64,7 +70,7 @@ def make_db_hook(cfg: Cfg):
             # the rule is what a pack strategy produces on that class
             strat = rule.strategy
             if isinstance(strat, EmptyStrategy):
-                if not dw.brute_empty(rule.comb_class):
+                if not brute_empty(rule.comb_class):
                     problem("empty-rule-for-nonempty", f"empty rule for non-empty {rule.comb_class!r}")
             else:
                 allowed = allowed_strategies(pack, (rule.comb_class,) + tuple(children))
@@ -81,15 +87,15 @@ def make_db_hook(cfg: Cfg):
                         gk = (repr(strat), rule.comb_class.key())
                         if gk not in _GATED:
                             _GATED.add(gk)
-                            g = dw.gate_rule(rule, GATE_N)
+                            g = gate_rule(rule, GATE_N)
                             if g:
                                 from mc.core import HarnessError
 
                                 raise HarnessError(f"domain gate: {g}")
             orig(start, ends, rule)
             # what was stored
-            truly_ne = tuple(sorted(l for l, c in zip(ends, children) if not (rule.possibly_empty and dw.brute_empty(c))))
-            if not rule.possibly_empty and not dw.brute_empty(rule.comb_class) and any(dw.brute_empty(c) for c in children):
+            truly_ne = tuple(sorted(l for l, c in zip(ends, children) if not (rule.possibly_empty and brute_empty(c))))
+            if not rule.possibly_empty and not brute_empty(rule.comb_class) and any(brute_empty(c) for c in children):
                 from mc.core import HarnessError
 
                 raise HarnessError(f"domain: {strat!r} declared possibly_empty=False but produced an empty child of {rule.comb_class!r}")
@@ -103,13 +109,13 @@ def make_db_hook(cfg: Cfg):
                 if (start, tuple(ends)) not in keys:
                     problem("stored-key", f"forest has no key {(start, tuple(ends))}")
                 empties = {fk.parent for fk in db.table_method._rules if fk.bucket.name == "VERIFICATION" and not fk.children
-                           and dw.brute_empty(classdb.get_class(fk.parent))}
+                           and brute_empty(classdb.get_class(fk.parent))}
                 if rule.possibly_empty:
                     for l, c in zip(ends, children):
-                        if dw.brute_empty(c) and l not in empties:
+                        if brute_empty(c) and l not in empties:
                             problem("forest-empty-rule-missing", f"empty child {c!r} (label {l}) has no empty rule")
                 for lab in db._already_empty:
-                    if not dw.brute_empty(classdb.get_class(lab)):
+                    if not brute_empty(classdb.get_class(lab)):
                         problem("empty-rule-for-nonempty", f"label {lab} = {classdb.get_class(lab)!r} got an empty rule")
             # labels <-> classes is a bijection, cached emptiness is the truth
             cl = [classdb.get_class(i) for i in range(len(classdb.comb_class_list))]
@@ -120,7 +126,7 @@ def make_db_hook(cfg: Cfg):
                 if classdb.get_label(cl[i]) != i:
                     problem("label-bijection", f"get_label(get_class({i})) = {classdb.get_label(cl[i])}")
                 e = classdb.empty_list[i]
-                if e is not None and e != dw.brute_empty(cl[i]):
+                if e is not None and e != brute_empty(cl[i]):
                     problem("cached-emptiness", f"label {i} = {cl[i]!r} cached as empty={e}")
 
         db.add = add
@@ -161,6 +167,19 @@ def configs(tier: str) -> List[Cfg]:
                     res.append(Cfg.of(c.with_(stats=st), pk, db))
         res.append(Cfg.of(c, "rfac", "RuleDB", compressed=True))
         res.append(Cfg.of(c, "sym", "Forest", expand_verified=True))
+    # parse-tree domain: products with a repeated factor (N0 -> a a, N0 -> N0 N0 | a, ...),
+    # unit chains, reverse universes
+    from mc import domain_g as dg
+    from mc.search import GCfg
+
+    one = dg.grammars("one")
+    repeated = [g for g in one if any(len(set(alt)) < len(alt) for alt in g[0])]
+    gs = repeated + ([g for g in one if g not in repeated][:60] if tier == "quick" else [g for g in one if g not in repeated])
+    for g in gs:
+        for db in ("RuleDB", "Forest", "Forget") if tier == "quick" else DBS:
+            res.append(GCfg(g, (), "g", db))
+    for g, pk, _genuine in dg.reverse_universes():
+        res.append(GCfg(g, (), pk, "Forest"))
     return res
 
 
